@@ -20,7 +20,7 @@ GenNext ==
     \/ \E k \in K : PollerDone(k) /\ h' = Append(h, [ev |-> "PollerDone", k |-> k])
     \/ \E b \in {"busy", "doing", "que", "arch"} :
           /\ Env
-          /\ CASE b = "busy" -> busy' # busy [] b = "doing" -> doing' # doing [] b = "que" -> que' # que [] b = "arch" -> arch' # arch
+          /\ CASE b = "busy" -> busy' # busy [] b = "doing" -> doing' # doing [] b = "que" -> (que' # que /\ doing' = doing) [] b = "arch" -> arch' # arch
           /\ h' = Append(h, [ev |-> "Env", bit |-> b])
 GenSpec == GenInit /\ [][GenNext]_gvars
 View == vars
